@@ -149,6 +149,7 @@ Hypothesis Hdom : in_domain p = true.
 Hypothesis K5 : kf_c07_field_result p = false.
 Hypothesis K6 : kf_c07_odd_name p = false.
 Hypothesis K7 : kf_c07_inline_mod p = false.
+Hypothesis K8 : kf_c07_payload_expr p = false.
 Hypothesis Hac : acyclic (spec_graph p).
 Hypothesis Hnp : no_params_suffix p = true.
 Variable m : list (str * str).          (* config.type_mappings *)
@@ -156,7 +157,7 @@ Variable m : list (str * str).          (* config.type_mappings *)
 Theorem module_decl_before_use_m cs : zod_consts_m m o p = Some cs -> decl_before_use cs = true.
 Proof.
   unfold zod_consts_m. destruct (emitted_zod o p) as [out|] eqn:Eo; [|discriminate]. intros Hcs. simpl in Hcs. injection Hcs as <-.
-  destruct (zod_order_full o p out Ho Hdom K5 K6 K7 Hac Eo) as [Hnd Hord].
+  destruct (zod_order_full o p out Ho Hdom K5 K6 K7 K8 Hac Eo) as [Hnd Hord].
   set (A := map (fun n => (schema_name n, struct_ids_m m p n)) out). set (B := param_consts_m m p).
   unfold no_params_suffix in Hnp. apply andb_true_iff in Hnp as [Hn12 Hn3]. apply andb_true_iff in Hn12 as [Hn1 Hn2].
   rewrite forallb_forall in Hn1, Hn2, Hn3.
@@ -229,9 +230,10 @@ End Module.
 (* without type mappings *)
 Theorem module_decl_before_use o (Ho : ord_ok o) p : in_domain p = true ->
   kf_c07_field_result p = false -> kf_c07_odd_name p = false -> kf_c07_inline_mod p = false ->
+  kf_c07_payload_expr p = false ->
   acyclic (spec_graph p) -> no_params_suffix p = true ->
   forall cs, zod_consts o p = Some cs -> decl_before_use cs = true.
-Proof. intros Hd K5 K6 K7 Hac Hnp cs. exact (module_decl_before_use_m o Ho p Hd K5 K6 K7 Hac Hnp [] cs). Qed.
+Proof. intros Hd K5 K6 K7 K8 Hac Hnp cs. exact (module_decl_before_use_m o Ho p Hd K5 K6 K7 K8 Hac Hnp [] cs). Qed.
 
 (* the instances without mappings used by Properties/C09.v *)
 Theorem zex_ids_plain : forall t k,
